@@ -1,13 +1,469 @@
-"""Container-level part of C17 (MPS/MPO, PEPS, environments). Filled in once the MPS/PEPS drivers exist."""
+"""
+Container-level part of C17: MPS/MPO (with / without central block, non-unit factor), Peps on every lattice class,
+Peps2Layers (with / without bra), DoublePepsTensor (operator, swaps, transposes), EnvCTM / EnvBP / EnvBoundaryMPS.
+Product enumeration objects x serialisation paths; oracle: every constituent tensor observationally identical
+(c17.same_tensor), container attributes (N, nr_phys, pC, factor, geometry, trans, swaps) equal; legacy paths that are
+documented to absorb the central block are compared through the represented state.
+"""
+import collections
+import io
+import warnings
+
+import numpy as np
+import yastn
+import yastn.tn.mps as mps
+import yastn.tn.fpeps as fpeps
+
+from vmc.gen import mpsgen as MG
+from vmc.gen import pepsgen as PG
+from . import _tcommon as TC
 
 
 def groups(tier):
-    return []
+    gs = []
+    for fam, sym in (('spin12', 'dense'), ('spin12', 'U1'), ('spinless', 'Z2'), ('spinless', 'U1'), ('spinful', 'U1xU1')):
+        gs.append({'kind': 'c_mps', 'fam': fam, 'sym': sym, 'level': 1})
+    for fam, sym in (('spinless', 'U1'), ('spinless', 'Z2'), ('spin12', 'dense'), ('spin12', 'Z2')):
+        gs.append({'kind': 'c_peps', 'fam': fam, 'sym': sym, 'level': 1})
+        gs.append({'kind': 'c_env', 'fam': fam, 'sym': sym, 'level': 1})
+    return gs
 
 
 def run_group(g, acc):
-    raise KeyError(g)
+    {'c_mps': run_mps, 'c_peps': run_peps, 'c_env': run_env}[g['kind']](g, acc)
 
+
+def _same_tensor(a, b, what):
+    from . import c17
+    return c17.same_tensor(a, b, what)
+
+
+def same_mps(a, b, what):
+    if type(a).__name__ != type(b).__name__:
+        return f"{what}: restored object is {type(b).__name__}, not {type(a).__name__}"
+    if (a.N, a.nr_phys, a.pC) != (b.N, b.nr_phys, b.pC):
+        return f"{what}: (N, nr_phys, pC) = {(b.N, b.nr_phys, b.pC)} instead of {(a.N, a.nr_phys, a.pC)}"
+    if not np.array_equal(np.asarray(a.factor), np.asarray(b.factor)):
+        return f"{what}: factor {b.factor} instead of {a.factor}"
+    if set(a.A) != set(b.A):
+        return f"{what}: tensor keys {sorted(b.A, key=repr)} instead of {sorted(a.A, key=repr)}"
+    for k in a.A:
+        m = _same_tensor(a.A[k], b.A[k], f"{what}: tensor {k}")
+        if m:
+            return m
+    return None
+
+
+def same_state(a, b, what):
+    """equality of the represented MPS/MPO (for legacy paths that absorb the central block)"""
+    if (a.N, a.nr_phys) != (b.N, b.nr_phys):
+        return f"{what}: (N, nr_phys) = {(b.N, b.nr_phys)} instead of {(a.N, a.nr_phys)}"
+    if b.pC is not None:
+        return f"{what}: restored object has a central block at {b.pC}"
+    a = a.shallow_copy()
+    a.absorb_central_()   # to_tensor() does not include a central block
+    ta, tb = a.to_tensor(), b.to_tensor()
+    la = ta.get_legs()
+    d = np.abs(ta.to_numpy(legs=dict(enumerate(la))) - tb.to_numpy(legs=dict(enumerate(la)))).max()
+    if not d <= 1e-13 * max(1, np.abs(ta.to_numpy()).max()):
+        return f"{what}: represented state differs by {d:.3e}"
+    return None
+
+
+def mps_paths():
+    return ['dict0', 'dict1', 'dict2', 'generic2', 'cls2', 'split2', 'split0_sq', 'npsave2', 'legacy', 'hdf5']
+
+
+def mps_roundtrip(x, path, cfg):
+    if path in ('dict0', 'dict1', 'dict2'):
+        return type(x).from_dict(x.to_dict(level=int(path[-1])))
+    if path == 'generic2':
+        return yastn.from_dict(x.to_dict(level=2))
+    if path == 'cls2':
+        return mps.MpsMpoOBC.from_dict(x.to_dict(level=2), config=cfg)
+    if path in ('split2', 'split0_sq'):
+        data, meta = yastn.split_data_and_meta(x.to_dict(level=int(path[5])), squeeze=path.endswith('_sq'))
+        return yastn.from_dict(yastn.combine_data_and_meta(data, meta))
+    if path == 'npsave2':
+        buf = io.BytesIO()
+        np.save(buf, x.to_dict(level=2), allow_pickle=True)
+        buf.seek(0)
+        return yastn.from_dict(np.load(buf, allow_pickle=True).item())
+    if path == 'legacy':
+        with warnings.catch_warnings():
+            warnings.simplefilter('ignore')
+            d = x.save_to_dict()
+        return mps.load_from_dict(cfg, d)
+    if path == 'hdf5':
+        import h5py
+        with h5py.File('c17c-inmemory.h5', 'w', driver='core', backing_store=False) as f:
+            x.save_to_hdf5(f, 'state/')
+            return mps.load_from_hdf5(cfg, f, 'state/')
+    raise KeyError(path)
+
+
+def mps_objects(loc, seed):
+    out = []
+    for N in (1, 2, 3):
+        ch = loc.charges_N(N)
+        n = ch[len(ch) // 2]
+        for cplx in (False, True):
+            psi = MG.random_state(loc, N, n, 3, (seed, 'c17c', N, cplx), integer=True, cplx=cplx)
+            out.append((f'mps:N{N}:{"c" if cplx else "r"}:asbuilt', psi))
+            can = psi.copy()
+            can.canonize_(to='last', normalize=False)
+            out.append((f'mps:N{N}:{"c" if cplx else "r"}:canonical_factor', can))
+            if N >= 2:
+                cb = psi.copy()
+                cb.canonize_(to='first')
+                cb.orthogonalize_site_(0, to='last')
+                out.append((f'mps:N{N}:{"c" if cplx else "r"}:central_block', cb))
+                cb2 = psi.copy()
+                cb2.canonize_(to='last')
+                cb2.orthogonalize_site_(N - 1, to='first')
+                cb2.factor = 2.5
+                out.append((f'mps:N{N}:{"c" if cplx else "r"}:central_block_last', cb2))
+        op = MG.random_operator(loc, N, 2, (seed, 'c17c', 'op', N), integer=True)
+        out.append((f'mpo:N{N}', op))
+        out.append((f'mpo:N{N}:lazyT', op.T))
+        out.append((f'mpo:N{N}:scaled', -0.5 * op))
+    return out
+
+
+def run_mps(g, acc):
+    loc = MG.Local(g['fam'], g['sym'])
+    cfg = loc.config
+    for label, x in mps_objects(loc, acc.seed):
+        for path in mps_paths():
+            acc.check_time()
+            case = {'kind': 'c_mps', 'fam': g['fam'], 'sym': g['sym'], 'obj': label, 'path': path, 'seed': acc.seed}
+            m = mps_case(x, path, cfg, label)
+            acc.ev(key=repr(case), nontrivial=x.N >= 2, outcome=('c_mps', path, m is None, 'central' in label))
+            acc.cnt['container_roundtrips'] += 1
+            if m:
+                acc.fail(case, m)
+    acc.sample({'kind': 'c_mps', 'fam': g['fam'], 'sym': g['sym']})
+
+
+def mps_case(x, path, cfg, label):
+    st, y = TC.call(lambda: mps_roundtrip(x, path, cfg))
+    if st != 'ok':
+        return f"{label} via {path}: round trip failed: {st}: {y}"
+    what = f"{label} via {path}"
+    if path in ('legacy', 'hdf5'):
+        return same_state(x, y, what)
+    m = same_mps(x, y, what)
+    if m:
+        return m
+    if path in ('dict2', 'generic2', 'npsave2', 'split2'):   # level 2 is independent of the original
+        before = [np.array(x.A[k]._data) for k in x.A]
+        for k in y.A:
+            y.A[k]._data[...] = y.A[k]._data * 0 + 1
+        if any(not np.array_equal(b, x.A[k]._data) for b, k in zip(before, x.A)):
+            return f"{what}: writing into the restored object changed the original"
+    return None
+
+
+# ---------------------------------------------------------------------------------------------
+# PEPS
+
+def peps_geometries():
+    return [('SquareLattice', dict(dims=(2, 2), boundary='obc')), ('SquareLattice', dict(dims=(2, 3), boundary='cylinder')),
+            ('SquareLattice', dict(dims=(3, 2), boundary='infinite')), ('SquareLattice', dict(dims=(1, 1), boundary='infinite')),
+            ('CheckerboardLattice', {}), ('RectangularUnitcell', dict(pattern=[[0, 1, 2], [1, 2, 0], [2, 0, 1]])),
+            ('RectangularUnitcell', dict(pattern=[[3, 5], [5, 3]])),
+            ('TriangularLattice', {}), ('TriangularLattice', dict(dims=(2, 2), boundary='obc', full_patch=True)),
+            ('TriangularLattice', dict(dims=(3, 3), boundary='infinite', full_patch=False))]
+
+
+def make_peps(loc, gname, kw, seed, entangle=True):
+    geo = getattr(fpeps, gname)(**kw)
+    psi = fpeps.product_peps(geo, loc.O['I'])
+    if entangle:
+        nn, lc = PG.gate_kinds(loc)
+        kind, par = nn[0]
+        for k, b in enumerate(list(geo.bonds())[:3]):
+            if tuple(b[0]) == tuple(b[1]):
+                continue
+            gate = PG.build_gate(loc, {'kind': kind, 'par': par, 'step': PG.jstep(0.2 + 0.1j * (k + 1)), 'sites': [list(b[0]), list(b[1])]})
+            st, _ = TC.call(lambda: psi.apply_gate_(gate))
+    return geo, psi
+
+
+def same_peps(a, b, what):
+    if type(a).__name__ != type(b).__name__:
+        return f"{what}: restored object is {type(b).__name__}, not {type(a).__name__}"
+    if not (a.geometry == b.geometry):
+        return f"{what}: restored geometry {b.geometry} differs from {a.geometry}"
+    if list(a.sites()) != list(b.sites()) or list(a.bonds()) != list(b.bonds()) or tuple(a.dims) != tuple(b.dims):
+        return f"{what}: restored sites/bonds/dims differ"
+    for s in a.sites():
+        m = _same_tensor(a[s], b[s], f"{what}: tensor at {tuple(s)}")
+        if m:
+            return m
+    return None
+
+
+def peps_roundtrip(x, path, cfg):
+    if path in ('dict0', 'dict1', 'dict2'):
+        return type(x).from_dict(x.to_dict(level=int(path[-1])))
+    if path == 'dict2_r':
+        return type(x).from_dict(x.to_dict(level=2, resolve_ops=True))
+    if path == 'generic2':
+        return yastn.from_dict(x.to_dict(level=2))
+    if path == 'cfg2':
+        return type(x).from_dict(x.to_dict(level=2), config=cfg)
+    if path == 'split2':
+        data, meta = yastn.split_data_and_meta(x.to_dict(level=2))
+        return yastn.from_dict(yastn.combine_data_and_meta(data, meta))
+    if path == 'npsave2':
+        buf = io.BytesIO()
+        np.save(buf, x.to_dict(level=2), allow_pickle=True)
+        buf.seek(0)
+        return yastn.from_dict(np.load(buf, allow_pickle=True).item())
+    if path == 'legacy':
+        with warnings.catch_warnings():
+            warnings.simplefilter('ignore')
+            d = x.save_to_dict()
+        return fpeps.load_from_dict(cfg, d)
+    raise KeyError(path)
+
+
+PEPS_PATHS = ['dict0', 'dict1', 'dict2', 'dict2_r', 'generic2', 'cfg2', 'split2', 'npsave2', 'legacy']
+
+
+def run_peps(g, acc):
+    loc = PG.PLocal(g['fam'], g['sym'])
+    cfg = loc.config
+    for gi, (gname, kw) in enumerate(peps_geometries()):
+        geo, psi = make_peps(loc, gname, kw, acc.seed)
+        for path in PEPS_PATHS:
+            acc.check_time()
+            case = {'kind': 'c_peps', 'fam': g['fam'], 'sym': g['sym'], 'obj': 'peps', 'geometry': gi, 'gname': gname, 'path': path, 'seed': acc.seed}
+            st, y = TC.call(lambda: peps_roundtrip(psi, path, cfg))
+            m = f"Peps on {gname}({kw}) via {path}: round trip failed: {st}: {y}" if st != 'ok' else same_peps(psi, y, f"Peps on {gname}({kw}) via {path}")
+            acc.ev(key=repr(case), nontrivial=len(psi.sites()) >= 2, outcome=('c_peps', gname, path, m is None))
+            acc.cnt['container_roundtrips'] += 1
+            if m:
+                acc.fail(case, m)
+    # two-layer PEPS and DoublePepsTensor
+    geo, psi = make_peps(loc, 'SquareLattice', dict(dims=(2, 2), boundary='obc'), acc.seed)
+    geo, phi = make_peps(loc, 'SquareLattice', dict(dims=(2, 2), boundary='obc'), acc.seed, entangle=False)
+    for label, obj in (('peps2layers', fpeps.Peps2Layers(psi)), ('peps2layers_bra', fpeps.Peps2Layers(ket=psi, bra=phi))):
+        for lvl in (0, 2):
+            case = {'kind': 'c_peps', 'fam': g['fam'], 'sym': g['sym'], 'obj': label, 'path': f'dict{lvl}', 'seed': acc.seed}
+            m = p2l_case(obj, lvl, label)
+            acc.ev(key=repr(case), nontrivial=True, outcome=('c_p2l', label, lvl, m is None))
+            acc.cnt['container_roundtrips'] += 1
+            if m:
+                acc.fail(case, m)
+    sites = [tuple(s) for s in geo.sites()]
+    O = loc.O
+    charged = [k for k in O if any(O[k].n)]
+    sym = cfg.sym
+    one = tuple(1 for _ in sym.zero()) if sym.NSYM else None
+    for tr in ((0, 1, 2, 3), (1, 2, 3, 0), (0, 3, 2, 1), (3, 2, 1, 0)):
+        for opn in (None, 'I', charged[0] if charged else None):
+            for sw in (None, {'k4': one, 'b0': one} if one else None):
+                for lvl in (0, 1, 2):
+                    case = {'kind': 'c_peps', 'fam': g['fam'], 'sym': g['sym'], 'obj': 'dpt', 'trans': list(tr), 'op': opn, 'swaps': repr(sw), 'path': f'dict{lvl}', 'seed': acc.seed}
+                    dpt = fpeps.DoublePepsTensor(bra=phi[sites[0]], ket=psi[sites[0]], trans=tr)
+                    if opn:
+                        dpt.set_operator_(O[opn])
+                    if sw:
+                        for ax, ch in sw.items():
+                            dpt.add_charge_swaps_(ch, ax)
+                    m = dpt_case(dpt, lvl)
+                    acc.ev(key=repr(case), nontrivial=True, outcome=('c_dpt', tr, opn is None, sw is None, lvl, m is None))
+                    acc.cnt['container_roundtrips'] += 1
+                    if m:
+                        acc.fail(case, m)
+    acc.sample({'kind': 'c_peps', 'fam': g['fam'], 'sym': g['sym']})
+
+
+def p2l_case(obj, lvl, label):
+    st, d = TC.call(lambda: obj.to_dict(level=lvl))
+    if st != 'ok':
+        return f"{label}.to_dict(level={lvl}) failed: {st}: {d}"
+    if obj.bra_is_ket:
+        st, y = TC.call(lambda: yastn.from_dict(d))
+        if st != 'ok':
+            return f"{label}: from_dict failed: {st}: {y}"
+        if isinstance(y, fpeps.Peps2Layers):
+            y = y.ket
+        return same_peps(obj.ket, y, f"{label} level {lvl} (documented to store the ket only)")
+    st, y = TC.call(lambda: yastn.from_dict(d))
+    if st != 'ok':
+        return f"{label}: from_dict failed: {st}: {y}"
+    if not isinstance(y, fpeps.Peps2Layers):
+        return f"{label}: restored object is {type(y).__name__}"
+    return same_peps(obj.ket, y.ket, f"{label} level {lvl}: ket") or same_peps(obj.bra, y.bra, f"{label} level {lvl}: bra")
+
+
+def dpt_case(dpt, lvl):
+    st, y = TC.call(lambda: yastn.from_dict(dpt.to_dict(level=lvl)))
+    if st != 'ok':
+        st, y = TC.call(lambda: fpeps.DoublePepsTensor.from_dict(dpt.to_dict(level=lvl)))
+        if st != 'ok':
+            return f"DoublePepsTensor level {lvl}: round trip failed: {st}: {y}"
+    if not isinstance(y, fpeps.DoublePepsTensor):
+        return f"DoublePepsTensor level {lvl}: restored object is {type(y).__name__}"
+    if tuple(y.trans) != tuple(dpt.trans) or dict(y.swaps) != dict(dpt.swaps) or (y.op is None) != (dpt.op is None):
+        return f"DoublePepsTensor level {lvl}: trans/swaps/op = {y.trans}/{y.swaps}/{y.op is not None} instead of {dpt.trans}/{dpt.swaps}/{dpt.op is not None}"
+    m = _same_tensor(dpt.ket, y.ket, 'DoublePepsTensor ket') or _same_tensor(dpt.bra, y.bra, 'DoublePepsTensor bra')
+    if m:
+        return m
+    if dpt.op is not None:
+        m = _same_tensor(dpt.op, y.op, 'DoublePepsTensor op')
+        if m:
+            return m
+    fa, fb = dpt.fuse_layers(), y.fuse_layers()
+    return _same_tensor(fa, fb, f"DoublePepsTensor level {lvl}: fuse_layers()")
+
+
+# ---------------------------------------------------------------------------------------------
+# environments
+
+def env_objects(loc, seed):
+    out = []
+    for dims, bnd in (((2, 2), 'obc'), ((1, 3), 'obc'), ((2, 2), 'infinite')):
+        geo, psi = make_peps(loc, 'SquareLattice', dict(dims=dims, boundary=bnd), seed)
+        opts = {'D_total': 4, 'tol': 1e-12}
+        e = fpeps.EnvCTM(psi, init='eye')
+        out.append((f'EnvCTM:{dims}:{bnd}:eye', e, psi))
+        e2 = fpeps.EnvCTM(psi, init='eye')
+        if bnd == 'obc':
+            e2.expand_outward_()
+        else:
+            e2.update_(opts_svd=opts)
+        out.append((f'EnvCTM:{dims}:{bnd}:evolved', e2, psi))
+        b = fpeps.EnvBP(psi)
+        b.iterate_(max_sweeps=2)
+        out.append((f'EnvBP:{dims}:{bnd}', b, psi))
+        if bnd == 'obc':
+            m = fpeps.EnvBoundaryMPS(psi, opts_svd={'D_total': 16}, setup='lrtb')
+            out.append((f'EnvBoundaryMPS:{dims}:{bnd}', m, psi))
+    return out
+
+
+def env_tensors(e):
+    """(label, tensor-like) of everything an environment holds"""
+    out = []
+    name = type(e).__name__
+    if name == 'EnvBoundaryMPS':
+        for k, v in sorted(e._env.items(), key=lambda kv: repr(kv[0])):
+            out.append((f'boundary {k}', v))
+        return out
+    for s in e.sites():
+        loc = e[s]
+        for f in loc.fields():
+            out.append((f'{tuple(s)}.{f}', getattr(loc, f)))
+        if name.startswith('EnvCTM') and getattr(e, 'proj', None) is not None:
+            pr = e.proj[s]
+            for f in pr.fields():
+                out.append((f'proj {tuple(s)}.{f}', getattr(pr, f)))
+    return out
+
+
+def same_env(a, b, what, legacy=False):
+    if type(a).__name__ != type(b).__name__:
+        return f"{what}: restored object is {type(b).__name__}, not {type(a).__name__}"
+    if not (a.geometry == b.geometry):
+        return f"{what}: geometry differs"
+    ka = a.psi.ket if isinstance(a.psi, fpeps.Peps2Layers) else a.psi
+    kb = b.psi.ket if isinstance(b.psi, fpeps.Peps2Layers) else b.psi
+    m = same_peps(ka, kb, f"{what}: psi")
+    if m:
+        return m
+    ta, tb = env_tensors(a), env_tensors(b)
+    if [k for k, _ in ta] != [k for k, _ in tb]:
+        return f"{what}: environment tensors {[k for k, _ in tb][:6]}.. instead of {[k for k, _ in ta][:6]}.."
+    for (k, x), (_, y) in zip(ta, tb):
+        if legacy and (k.startswith('proj ') or k.endswith('R')):
+            continue    # the deprecated format stores the environment tensors only; projectors / BP gauge factors are recomputed
+        if (x is None) != (y is None):
+            return f"{what}: {k} is {'missing' if y is None else 'present'} after the round trip"
+        if x is None:
+            continue
+        if isinstance(x, yastn.Tensor):
+            m = _same_tensor(x, y, f"{what}: {k}")
+        else:
+            m = same_mps(x, y, f"{what}: {k}")
+        if m:
+            return m
+    return None
+
+
+def env_roundtrip(e, path, cfg):
+    if path in ('dict0', 'dict1', 'dict2'):
+        return type(e).from_dict(e.to_dict(level=int(path[-1])))
+    if path == 'generic2':
+        return yastn.from_dict(e.to_dict(level=2))
+    if path == 'cfg2':
+        return type(e).from_dict(e.to_dict(level=2), config=cfg)
+    if path == 'split2':
+        data, meta = yastn.split_data_and_meta(e.to_dict(level=2))
+        return yastn.from_dict(yastn.combine_data_and_meta(data, meta))
+    if path == 'legacy':
+        with warnings.catch_warnings():
+            warnings.simplefilter('ignore')
+            d = e.save_to_dict()
+        return fpeps.load_from_dict(cfg, d)
+    raise KeyError(path)
+
+
+ENV_PATHS = ['dict0', 'dict1', 'dict2', 'generic2', 'cfg2', 'split2', 'legacy']
+
+
+def run_env(g, acc):
+    loc = PG.PLocal(g['fam'], g['sym'])
+    cfg = loc.config
+    for label, e, psi in env_objects(loc, acc.seed):
+        for path in ENV_PATHS:
+            acc.check_time()
+            case = {'kind': 'c_env', 'fam': g['fam'], 'sym': g['sym'], 'obj': label, 'path': path, 'seed': acc.seed}
+            st, y = TC.call(lambda: env_roundtrip(e, path, cfg))
+            m = f"{label} via {path}: round trip failed: {st}: {y}" if st != 'ok' else same_env(e, y, f"{label} via {path}", legacy=(path == 'legacy'))
+            if m is None and label.startswith(('EnvCTM', 'EnvBP')) and path in ('dict2', 'legacy'):
+                # the restored environment measures the same values
+                op = [v for k, v in loc.O.items() if k != 'I' and not any(v.n)]
+                if op:
+                    st1, v1 = TC.call(lambda: e.measure_1site(op[0]))
+                    st2, v2 = TC.call(lambda: y.measure_1site(op[0]))
+                    if st1 == 'ok' and (st2 != 'ok' or any(abs(v1[s] - v2[s]) > 1e-13 for s in v1)):
+                        m = f"{label} via {path}: restored environment measures differently ({st2})"
+            acc.ev(key=repr(case), nontrivial=True, outcome=('c_env', label.split(':')[0], path, m is None))
+            acc.cnt['container_roundtrips'] += 1
+            if m:
+                acc.fail(case, m)
+    acc.sample({'kind': 'c_env', 'fam': g['fam'], 'sym': g['sym']})
+
+
+# ---------------------------------------------------------------------------------------------
 
 def replay(case):
-    return []
+    acc = _Mini()
+    acc.seed = case.get('seed', 0)
+    g = {k: case[k] for k in ('kind', 'fam', 'sym')}
+    run_group(g, acc)
+    keys = [k for k in case if k not in ('seed',)]
+    return [v['msg'] for v in acc.violations if all(v['case'].get(k) == case.get(k) for k in keys)][:3]
+
+
+class _Mini:
+    def __init__(self):
+        self.violations, self.cnt = [], collections.Counter()
+        self.evaluations = self.states = self.transitions = 0
+        self.tier, self.seed = 'quick', 0
+
+    def ev(self, *a, **k):
+        pass
+
+    def fail(self, case, msg, key=None):
+        self.violations.append({'case': case, 'msg': msg})
+
+    def sample(self, c):
+        pass
+
+    def check_time(self):
+        pass
